@@ -309,11 +309,14 @@ func bGemm(p *program) bool {
 	if transB || p.r.Chance(0.3) {
 		node.Attrs = append(node.Attrs, mon.AttrI("transB", b2i(transB)))
 	}
-	switch p.r.Intn(3) {
+	switch p.r.Intn(4) {
 	case 0:
 		node.Inputs = append(node.Inputs, p.addInit("bias", p.smallWeights([]int{n}, 1)))
 	case 1:
 		node.Inputs = append(node.Inputs, "")
+	case 2: // C of every unidirectionally broadcastable shape, including the full (M,N)
+		cs := p.r.PickShape([]int{1, n}, []int{xv.Shape[0], n}, []int{xv.Shape[0], 1}, []int{})
+		node.Inputs = append(node.Inputs, p.addInit("C", p.smallWeights(cs, 1)))
 	}
 	_, ok = p.addNode(progNode{G: node, Mode: CmpTol, Eval: approxEval(func(in []*ref.T) (*ref.Approx, error) {
 		var c *ref.T
@@ -649,6 +652,14 @@ func bConv(p *program) bool {
 	w := p.addInit("K", p.smallWeights(append([]int{M, xv.Shape[1]}, ks...), 1))
 	at := ref.ConvAttrs{Pads: pads, Strides: strides}
 	node := mon.GNode{Op: "Conv", Inputs: []string{x, w}, Attrs: []*mon.Attr{mon.AttrIntsI("pads", pads), mon.AttrIntsI("strides", strides)}}
+	if p.r.Chance(0.4) { // dilations (kernel_shape stays inferred from the weight)
+		dil := make([]int, nsp)
+		for d := range dil {
+			dil[d] = p.r.Range(1, 2)
+		}
+		at.Dilations = dil
+		node.Attrs = append(node.Attrs, mon.AttrIntsI("dilations", dil))
+	}
 	if p.r.Chance(0.6) {
 		node.Inputs = append(node.Inputs, p.addInit("cb", p.smallWeights([]int{M}, 1)))
 	}
